@@ -26,6 +26,7 @@ def dispatch (line : String) : String :=
   | "parsestep" :: args => Driver.ParseStepD.handle args
   | "parsewf" :: args => Driver.ParseWfD.handle args
   | "lintwf" :: args => Driver.ParseWfD.handleLint args
+  | "exprwf" :: args => Driver.ParseWfD.handleExpr args
   | "lintsort" :: args => Driver.LintD.handleSort args
   | "relpath" :: args => Driver.LintD.handleRel args
   | "projectat" :: args => Driver.LintD.handleProjectAt args
